@@ -54,6 +54,8 @@ def tsallis_entropy(dist, order, rvs=None, rv_mode=None):
         dist = dist.marginal(rvs, rv_mode)
 
     pmf = dist.pmf
+    # Outcomes of zero probability are not part of the support (0**0 == 1).
+    pmf = pmf[pmf > 0]
 
     if order == 1:
         S_q = entropy(dist) / np.log2(np.e)
